@@ -14,7 +14,7 @@ import (
 
 func init() {
 	Registry["C18"] = Set{
-		Explanation: "Decides structural clauses of event delivery: V1 in RouteSendEvent the fan-out of a local producer's publication is reachable only through the edge on which the presented token equals the registered token (unknown event and wrong token return errors), the publication is appended to the replay buffer before the consumer list is read, each listed local consumer gets exactly one send of this very message with the publisher as sender, and each remote node gets one frame; V2 in the four subscribe functions the relation is inserted before the replay buffer is snapshotted (no publication can fall between), the consumer counter is changed by exactly +1 after a successful insert / -1 after a successful removal, and the producer is notified with MessageEventStart exactly on the counter value 1 after +1 and with MessageEventStop exactly on 0 after -1, only when notifications are enabled; V3 unregistering an event and the owner's termination both reach RouteTerminateEvent for it, and only the owner may unregister. Added while probing: V1 every element of the subscriber list is either sent to locally or its node recorded in the set the frame loop ranges over.",
+		Explanation: "Decides structural clauses of event delivery: V1 in RouteSendEvent the fan-out of a local producer's publication is reachable only through the edge on which the presented token equals the registered token (unknown event and wrong token return errors), the publication is appended to the replay buffer before the consumer list is read, each listed local consumer gets exactly one send of this very message with the publisher as sender, and each remote node gets one frame; V2 in the four subscribe functions the relation is inserted before the replay buffer is snapshotted (no publication can fall between), the consumer counter is changed by exactly +1 after a successful insert / -1 after a successful removal, and the producer is notified with MessageEventStart exactly on the counter value 1 after +1 and with MessageEventStop exactly on 0 after -1, only when notifications are enabled; V3 unregistering an event and the owner's termination both reach RouteTerminateEvent for it, and only the owner may unregister. Added while probing: V1 every element of the subscriber list is either sent to locally or its node recorded in the set the frame loop ranges over. V4 the subscriber counter follows the relation set: the process release function counts a terminating subscriber out of the events it was subscribed to (both lists of CleanupConsumer), with MessageEventStop at zero.",
 		NotDecided: []string{
 			"per-publisher order and exactly-once under the subscribe-while-publishing window (consumer list is read without a lock against subscription)",
 			"delivery of each message (C02), remote framing (C12)",
@@ -280,6 +280,8 @@ func runC18(p *load.Program, r *core.Report) {
 		}
 	}
 
+	c18CounterFollowsRelations(a, r)
+
 	// ---- V2
 	rule2 := "C18.V2 subscribe-bookkeeping"
 	r.Floor(rule2, 4)
@@ -487,6 +489,77 @@ func spilledParam(v ssa.Value) *ssa.Parameter {
 		}
 	}
 	return nil
+}
+
+// c18CounterFollowsRelations: V4 — the subscriber counter that drives the start/stop notifications
+// follows the relation set: it is decremented not only by UnlinkEvent/DemonitorEvent but also when
+// a subscriber terminates — the process release function hands both lists returned by
+// CleanupConsumer to a function that, for targets of type gen.Event, decrements the counter and
+// sends MessageEventStop when it reaches zero.
+func c18CounterFollowsRelations(a *Anchors, r *core.Report) {
+	rule := "C18.V4 counter-follows-relations"
+	r.Floor(rule, 1)
+	p := a.P
+	f := p.Func("node", a.NodeT.Obj().Name(), "unregisterProcess")
+	key := "C18.V4|unregisterProcess"
+	inst := "a terminating subscriber is counted out of the events it was subscribed to (both the link and the monitor list of CleanupConsumer)"
+	if f == nil {
+		r.Unk(rule, key, "", "", inst, "unregisterProcess not found")
+		return
+	}
+	var cleanup *ssa.Call
+	eachInstr(f, func(in ssa.Instruction) {
+		if c, ok := in.(*ssa.Call); ok && callsNamed(in, "CleanupConsumer") {
+			cleanup = c
+		}
+	})
+	if cleanup == nil {
+		r.Bad(rule, key, fname(f), p.Pos(f.Pos()), inst, "CleanupConsumer is not called")
+		return
+	}
+	countsOut := func(g *ssa.Function) bool {
+		if g == nil || len(g.Blocks) == 0 {
+			return false
+		}
+		dec, asEvent, stop := false, false, false
+		eachInstr(g, func(in ssa.Instruction) {
+			if ta, ok := in.(*ssa.TypeAssert); ok && namedOf(ta.AssertedType) == "gen.Event" {
+				asEvent = true
+			}
+			if cc := callCommon(in); cc != nil && isAtomic(cc) && strings.HasPrefix(staticCallee(cc).Name(), "Add") && len(cc.Args) == 2 {
+				if _, path, okp := fieldPath(cc.Args[0]); okp && len(path) > 0 && path[len(path)-1] == "consumers" {
+					if c, okc := constInt(cc.Args[1]); okc && c == -1 {
+						dec = true
+					}
+				}
+			}
+			if al, ok := in.(*ssa.Alloc); ok && strings.HasSuffix(al.Type().String(), "gen.MessageEventStop") {
+				stop = true
+			}
+		})
+		return dec && asEvent && stop
+	}
+	handled := map[int]bool{}
+	for _, idx := range []int{0, 1} {
+		ex := tupleExtract(cleanup, idx)
+		if ex == nil || ex.Referrers() == nil {
+			continue
+		}
+		for _, rf := range *ex.Referrers() {
+			cc := callCommon(rf)
+			if cc == nil {
+				continue
+			}
+			if countsOut(staticCallee(cc)) {
+				handled[idx] = true
+			}
+		}
+	}
+	if handled[0] && handled[1] {
+		r.OK(rule, key, fname(f), p.Pos(cleanup.Pos()), inst, "both lists are handed to a function that decrements consumers for gen.Event targets and sends MessageEventStop")
+	} else {
+		r.Bad(rule, key, fname(f), p.Pos(cleanup.Pos()), inst, fmt.Sprintf("link list handled: %v, monitor list handled: %v — a subscriber that terminates stays counted: the producer is never told that the last subscriber left, and the next subscriber is not announced as the first", handled[0], handled[1]))
+	}
 }
 
 var _ = load.Module
